@@ -4,6 +4,7 @@ import math
 from fractions import Fraction as F
 
 from tesim import core, epi, gen_epi, epicheck
+from tesim.core import canon
 from tesim.epimodel import Delivery
 
 PROP = "C07"
@@ -259,6 +260,30 @@ def execute(scenario):
                     violate("replay_pre_nlv", "step {}: recorded pre-trade NLV {} but replaying recorded trades and interest against the quotes gives {}".format(
                         k, reb["pre"]["nlv"], float(m_pre) if m_pre is not None else None), op=k, kind="pre")
                     break
+                # a snapshot is one consistent picture of the account: cash + posted margins + fully-paid positions at
+                # their liquidation side add up to the NLV it reports
+                for which in ("pre",):
+                    snap = reb[which]
+                    tot = F(snap["nr"].get("USD", 0.0))
+                    okk = True
+                    for sym, (mult, cashreq, mreq) in ledger.params.items():
+                        tot += F(snap["margins"].get(sym, 0.0))
+                        q = F(snap["nr"].get(sym, 0.0))
+                        if cashreq != 0 and q != 0:
+                            b_, a_ = books.get(sym, (None, None))
+                            px_ = b_ if q > 0 else a_
+                            if px_ is None or px_ != px_:
+                                okk = False
+                                break
+                            tot += cashreq * q * mult * F(px_)
+                    if okk and abs(float(tot) - snap["nlv"]) > tol:
+                        violate("snapshot_inconsistent", "step {}: the {}-trade snapshot reports cash {} + margins + fully-paid positions = {} but NLV {}".format(
+                            k, which, snap["nr"].get("USD", 0.0), float(tot), snap["nlv"]), op=k, kind=which)
+                        break
+                    if okk and any(v != 0 for v in snap["margins"].values()):
+                        probe("snapshot_with_margins_consistent")
+                if violations:
+                    break
                 for tr in reb["trades"]:
                     bid, ask = books.get(tr["sym"], (None, None))
                     if (tr["bid"], tr["ask"]) != (bid, ask) or tr["px"] != (ask if tr["q"] > 0 else bid):
@@ -369,6 +394,20 @@ def execute(scenario):
                 violate("compounding", "simple returns compound to {} but NLV_final/NLV_initial = {}".format(prod, final / initial_nlv), kind="compounding")
                 break
             probe("compounding_checked")
+        # an entry, once written, stays what it was: re-read at the end of the episode, every entry equals the
+        # snapshot taken when it was written (an entry that aliases live account state would drift)
+        if ep is h.episodes[-1] and entries and not scenario.get("driver_mixed"):
+            final = sim.track_record()
+            if len(final) == len(entries):
+                for (k_, reb0), now_ in zip(entries, final):
+                    if canon(reb0) != canon(now_):
+                        keys = [x for x in reb0 if canon(reb0[x]) != canon(now_.get(x))]
+                        violate("entry_changed_after_the_fact", "the entry written at step {} reads differently at the end of the episode: fields {}".format(k_, keys),
+                                op=k_, kind=keys[0] if keys else "?")
+                        break
+                probe("entries_reread_at_the_end")
+        if violations:
+            break
         # TrackRecord's own aggregations against column-wise recomputation (last episode only: the broker is rebuilt on reset)
         if ep is h.episodes[-1] and entries:
             tr = h.env.broker.track_record
